@@ -219,8 +219,13 @@ class Writer(threading.Thread):
             raise r
 
 
+class FakeTty(io.StringIO):
+    def isatty(self):
+        return True
+
+
 class Rig:
-    def __init__(self, ctx_default, gated, nwriters=0, sleep=0.0):
+    def __init__(self, ctx_default, gated, nwriters=0, sleep=0.0, cpr=False):
         import prompt_toolkit.patch_stdout as ps
         from prompt_toolkit.application import Application, create_app_session
         from prompt_toolkit.application.current import get_app_session
@@ -247,7 +252,16 @@ class Rig:
         self.flags = set()
         self._cms = []
         self.sio = io.StringIO()
-        self.out = Vt100_Output(self.sio, lambda: Size(rows=24, columns=80), term="xterm")
+        self.cpr = cpr
+        if cpr:
+            # a terminal that answers cursor position requests (when the schedule says so)
+            self.sio = FakeTty()
+        self.out = Vt100_Output(self.sio, lambda: Size(rows=24, columns=80), term="xterm", enable_cpr=cpr)
+        self.cpr_sleepers = []
+        self.cpr_waiting_sections = 0
+        self.cpr_waits_inflight = 0
+        self.cpr_waits_done = 0
+        self.cpr_reports = 0
         cm = create_pipe_input()
         self.inp = cm.__enter__()
         self._cms.append(cm)
@@ -264,6 +278,7 @@ class Rig:
         self.app = Application(layout=Layout(Window(FormattedTextControl("PROMPT> "))),
                                input=self.inp, output=self.out)
         self._wrap_renderer()
+        self._wrap_cpr()
         logging.getLogger("asyncio").setLevel(logging.CRITICAL)
         warnings.filterwarnings("ignore", category=RuntimeWarning, message="coroutine .* was never awaited")
         self._old_hook = threading.excepthook
@@ -380,6 +395,52 @@ class Rig:
                 self.render_depth -= 1
         r.erase, r.render = erase, render
 
+    def _wrap_cpr(self):
+        """CPR waits are made schedulable: the 1 s timeout inside
+        Renderer.wait_for_cpr_responses sleeps until the schedule says
+        CprTimeout; the 2 s 'not supported' timer never fires.  Calls made by
+        in_terminal() are counted (observation `cprwait`)."""
+        import prompt_toolkit.renderer as rmod
+        rig = self
+        self._rmod = rmod
+        self._real_sleep = rmod.sleep
+        self.app.renderer.CPR_TIMEOUT = 100000
+
+        async def gated_sleep(t, *a, **k):
+            if t == 1:
+                ev = asyncio.Event()
+                rig.cpr_sleepers.append(ev)
+                await ev.wait()
+            else:
+                await rig._real_sleep(t, *a, **k)
+        rmod.sleep = gated_sleep
+        orig = self.app.renderer.wait_for_cpr_responses
+
+        def wait_for_cpr_responses(*a, **k):
+            caller = sys._getframe(1).f_code.co_name
+            co = orig(*a, **k)
+
+            async def counted():
+                sec = caller == "in_terminal"
+                rig.cpr_waits_inflight += 1
+                if sec:
+                    rig.cpr_waiting_sections += 1
+                try:
+                    return await co
+                finally:
+                    rig.cpr_waits_inflight -= 1
+                    rig.cpr_waits_done += 1
+                    if sec:
+                        rig.cpr_waiting_sections -= 1
+            return counted()
+        self.app.renderer.wait_for_cpr_responses = wait_for_cpr_responses
+        orig_report = self.app.renderer.report_absolute_cursor_row
+
+        def report(row):
+            rig.cpr_reports += 1
+            return orig_report(row)
+        self.app.renderer.report_absolute_cursor_row = report
+
     def _hook(self, args):
         self.crashed.append((args.thread.name if args.thread else "?", repr(args.exc_value)))
 
@@ -492,6 +553,23 @@ class Rig:
             self.settle()
         elif k == 16:
             self.settle()
+        elif k == 17:
+            n0 = self.cpr_reports
+            self.inp.send_text("\x1b[5;1R")
+            self._poll(lambda: self.cpr_reports > n0, "cursor position report not consumed")
+            self.settle()
+            self._poll(lambda: not self.app._invalidated, "redraw after the report did not happen")
+            self.settle()
+        elif k == 18:
+            sl, self.cpr_sleepers = self.cpr_sleepers, []
+            want_done = self.cpr_waits_done + self.cpr_waits_inflight
+
+            def fire():
+                for ev in sl:
+                    ev.set()
+            self.host.loop.call_soon_threadsafe(fire)
+            self._poll(lambda: self.cpr_waits_done >= want_done, "CPR timeout did not end the waits")
+            self.settle()
         else:
             raise ValueError(lab)
 
@@ -533,7 +611,8 @@ class Rig:
         return [f, S("".join(self.buffer_value())), q, [S(t[4]) for t in self.loop_pending],
                 int(self.session.app is not None and self.session.app.loop is not None),
                 int(bool(self.app._is_running)), int(lf is not None and not lf.done()),
-                int(bool(self.app._running_in_terminal)), len(self.events)]
+                int(bool(self.app._running_in_terminal)), len(self.events),
+                len(self.app.renderer._waiting_for_cpr_futures), int(self.cpr_waiting_sections > 0)]
 
     def _chosen_loop(self):
         fr = sys._current_frames().get(self.fthread.ident)
@@ -589,10 +668,14 @@ class Rig:
                 if self.loop_running():
                     self.host.loop.call_soon_threadsafe(ev.set)
             if self.loop_running():
+                self._fire_cpr_timeouts()
                 self.settle()
                 if self.app._is_running and self.loop_running():
                     self.host.loop.call_soon_threadsafe(self.app.exit)
-            if not self.host.idle.wait(T_STEP):
+            end = time.time() + T_STEP
+            while not self.host.idle.wait(0.02) and time.time() < end:
+                self._fire_cpr_timeouts()      # the 1 s CPR timeouts may pass now
+            if not self.host.idle.is_set():
                 problems.append("application did not stop")
             elif not self.host.loop.is_closed():
                 # a user-managed loop is run once more: callbacks left on it get their chance
@@ -602,6 +685,11 @@ class Rig:
         finally:
             self.teardown()
         return problems
+
+    def _fire_cpr_timeouts(self):
+        sl, self.cpr_sleepers = self.cpr_sleepers, []
+        if sl and self.loop_running():
+            self.host.loop.call_soon_threadsafe(lambda: [ev.set() for ev in sl])
 
     def teardown(self):
         self.gate.open()
@@ -615,6 +703,10 @@ class Rig:
         for w in self.writers:
             w.join(T_STEP)
         threading.excepthook = self._old_hook
+        try:
+            self._rmod.sleep = self._real_sleep
+        except BaseException:  # noqa
+            pass
         if self._restore_default is not None:
             s, i, o, a = self._restore_default
             s._input, s._output, s.app = i, o, a
